@@ -11,7 +11,7 @@
 // The counter aborts the operation as soon as (abs) is exceeded, so that a
 // path-enumerating implementation is detected after at most bound+2 entries.
 // Wall-clock time never enters a verdict (the only timer classifies a Walk that
-// does not return within 120 s as a hang, which is reported under its own
+// does not return within 30 s as a hang, which is reported under its own
 // signature and is not a C19 verdict).
 package c19
 
@@ -627,7 +627,7 @@ func opWalk(g *gspec, bound int64) result {
 		close(release)
 	}()
 	var res result
-	ceiling := time.NewTimer(120 * time.Second)
+	ceiling := time.NewTimer(30 * time.Second)
 	defer ceiling.Stop()
 	select {
 	case <-done:
@@ -778,6 +778,7 @@ func TestVerif(t *testing.T) {
 	samples := 0
 	famCount := map[string]int{}
 
+	hungOps := map[string]bool{}
 	for _, g := range graphs {
 		famCount[g.Family]++
 		if g.diam {
@@ -788,11 +789,16 @@ func TestVerif(t *testing.T) {
 			if rp != nil && rp.Op != op.name {
 				continue
 			}
+			if hungOps[op.name] {
+				continue // this operation already hung once: do not wait for every further graph
+			}
 			res := op.run(g, bound)
 			evals++
 			apiCalls += res.ncalls
 			if res.hang {
-				vrep.Violation("walk-hang:"+op.name, fmt.Sprintf("Walk did not return within 120 s on %s (not a cost verdict)", g), map[string]any{"op": op.name, "family": g.Family, "width": g.Width, "depth": g.Depth, "n": g.N, "mask": g.Mask})
+				hungOps[op.name] = true
+				vrep.Violation("walk-hang:"+op.name, fmt.Sprintf("Walk did not return within 30 s on %s (not a cost verdict)", g), map[string]any{"op": op.name, "family": g.Family, "width": g.Width, "depth": g.Depth, "n": g.N, "mask": g.Mask})
+				vrep.Cap("operation %s hung on %s; it is skipped for the remaining graphs", op.name, g)
 				continue
 			}
 			if res.wrong != "" {
